@@ -21,6 +21,7 @@ def cases(tier, rng):
     for i in range(count):
         n = rng.choice([2, 3, 4])
         g = ref.Gen(rng, n=n, use_sub=(i % 3 == 0), bracket=(i % 3 == 0), use_macros=False, max_depth=4, use_loops=(i % 2 == 0), gates=("X", "H", "Rx", "CX"))
+        g.empty_blocks = (i % 2 == 1)
         p = g.program()
         if i % 7 == 0:
             p["body"].append(("par", [("gate", "X", [("q", "q", 0)]), ("loop", 2, [("gate", "H", [("q", "q", 1 % n)])])]))
@@ -30,6 +31,9 @@ def cases(tier, rng):
         text = ref.to_text(p)
         nt = "<" in text and "{" in text.split("<", 1)[1]
         yield text, {"text": text}, nt
+        if i % 7 == 0:
+            # the same program handed to the builder as an S-expression (the text grammar forbids a loop directly in <>)
+            yield "sexp:" + text, {"text": text, "prog": p}, True
 
 
 # schedule of a jaqalpaq statement tree: list of time steps, each a Counter of leaf descriptions
@@ -107,7 +111,13 @@ def check(pl):
     from jaqalpaq.core.algorithm.unit_timing import normalize_blocks_with_unitary_timing
     text = pl["text"]
     try:
-        c = parse_native(text)
+        if "prog" in pl:
+            from bounded.c02 import expected_sexp
+            from jaqalpaq.core.circuitbuilder import build
+            sx = [x for x in expected_sexp(pl["prog"]) if not (isinstance(x, list) and x and x[0] == "usepulses")]
+            c = build(sx, inject_pulses=common.native_gates())
+        else:
+            c = parse_native(text)
     except JaqalError:
         return None
     lip = has_loop_in_par(c.body, c.body.parallel)
